@@ -272,6 +272,11 @@ func c19Run(c *Ctx) {
 		{"lexical-unterminated-string", `"open`},
 		{"input-bad-arg", BI("input", "5") + ";"},
 		{"input-two-args", BI("input", `"a"`, `"b"`) + ";"},
+		// declarations are not statements: they cannot be the unbraced body of if / else / while / for
+		{"syntax-declaration-as-if-body", If("1 < 2", Var("st", `"adult"`))}, {"syntax-function-as-while-body", While(False(), Fun("g3", "", ""))},
+		{"syntax-declaration-as-else-body", IfElse("1 > 2", Print("1"), Var("st", "1"))}, {"syntax-declaration-as-for-body", For(";", False(), "", Var("st", "1"))},
+		// characters that merely look like blanks start no token
+		{"lexical-nbsp", Print("1") + "\u00a0" + Print("2")}, {"lexical-em-space", "\u2003" + Print("1")}, {"lexical-form-feed", Print("1") + "\f" + Print("2")}, {"lexical-nel", Print("1") + "\u0085"}, {"lexical-ideographic-space", Var("q", "1") + "\u3000" + Print("q")},
 	}
 	for _, t := range tails {
 		for ncalls := 0; ncalls <= 4; ncalls++ {
